@@ -7,6 +7,10 @@
 use super::*;
 
 fn expected_input(prev_out: &Shape, layer: &Layer) -> Vec<usize> {
+    if let Layer::Feedback(fb) = layer {
+        // a block takes what its first layer takes
+        return expected_input(prev_out, &fb.layers[0]);
+    }
     match (prev_out, layer) {
         (Shape::Triple(c, h, w), Layer::Dense(_)) => vec![c * h * w],
         (Shape::Single(n), Layer::Dense(_)) => vec![*n],
